@@ -21,6 +21,7 @@ C03(r) == (r.e \in {"Probe", "EbProbe"} /\ r.ok) => StructValid(r.sv)
 EbDrift(r) == r.e = "EbProbe" =>
    Drift(/\ (r.pk = "rej" => ~r.ok)
          /\ ((r.pred = "acc" /\ r.ok) => (r.np = r.pred_np /\ r.faces = r.pred_faces))
+         /\ ((r.pred = "acc" /\ r.natt = 0 /\ r.pred_np > 0) => r.ok)      \* without attribute decoders nothing later can refuse
          /\ r.pk # "ub", "EbDecoder prediction")
 NestDrift(r) == r.e = "Nest" => Drift(r.ok = (r.depth - 1 <= 1000), "Metadata nesting limit")
 C18(r) == (r.e = "Probe" /\ r.allocs) => AllocBounded(r)
